@@ -1,33 +1,46 @@
-"""C04 helper: run two threads through process_iter() under a deterministic line-level schedule.
+"""C04 helper: run threads through chosen psutil functions under a deterministic line-level schedule.
 
-Each worker thread installs a sys.settrace tracer that stops at every 'line' event inside the
-process_iter generator frame (psutil/__init__.py) and waits for its turn; the controller hands out
-turns following an explicit list of thread ids, then lets the threads finish one after the other.
+Each worker thread installs a sys.settrace tracer that stops at every 'line' event inside the target function's frames
+(default: the process_iter generator of psutil/__init__.py) and waits for its turn; the controller hands out turns
+following an explicit list of thread ids, optionally calls a hook (e.g. os.fork()) while the threads are parked, then
+lets the threads finish one after the other.
+
+A thread that was given a turn and does not reach its next stop within [grace] seconds is BLOCKED (typically on a lock
+that another parked thread holds): that is not a harness error -- the scheduler treats it as not runnable and goes on
+with the other threads; it becomes runnable again when it reaches a stop.  Threads that are still blocked when nobody
+else can run are reported as ("hang",): an outcome of the implementation, to be judged by the caller.
 """
 import sys
 import threading
+import time
 
 
 class Deadlock(Exception):
-    pass
+    """the harness itself is stuck (a worker never started, a worker starved while runnable)"""
 
 
-def run_two(fn, schedule, filename_suffix="psutil/__init__.py", funcname="process_iter", nthreads=2, timeout=10.0):
+def run_two(fn, schedule, filename_suffix="psutil/__init__.py", funcname="process_iter", nthreads=2, timeout=10.0,
+            grace=0.25, hang_after=1.5, hook=None):
     cond = threading.Condition()
-    state = {"turn": None, "waiting": [False] * nthreads, "done": [False] * nthreads, "free": False}
+    st = {"turn": None, "waiting": [False] * nthreads, "done": [False] * nthreads, "blocked": [False] * nthreads,
+          "free": False}
     results = [None] * nthreads
+    hook_result = [None]
 
     def sync(tid):
         with cond:
-            if state["free"]:
+            if st["free"]:
                 return
-            state["waiting"][tid] = True
+            st["waiting"][tid] = True
+            st["blocked"][tid] = False
             cond.notify_all()
-            while state["turn"] != tid and not state["free"]:
-                if not cond.wait(timeout):
+            while st["turn"] != tid and not st["free"]:
+                if not cond.wait(timeout * 6):
                     raise Deadlock("worker %d starved" % tid)
-            state["turn"] = None
-            state["waiting"][tid] = False
+            if st["turn"] == tid:
+                st["turn"] = None
+            st["waiting"][tid] = False
+            cond.notify_all()
 
     def make_tracer(tid):
         def local(frame, event, arg):
@@ -51,47 +64,80 @@ def run_two(fn, schedule, filename_suffix="psutil/__init__.py", funcname="proces
         finally:
             sys.settrace(None)
             with cond:
-                state["done"][tid] = True
-                if state["turn"] == tid:
-                    state["turn"] = None
+                st["done"][tid] = True
+                st["blocked"][tid] = False
+                if st["turn"] == tid:
+                    st["turn"] = None
                 cond.notify_all()
 
     threads = [threading.Thread(target=worker, args=(t,), daemon=True) for t in range(nthreads)]
     for t in threads:
         t.start()
 
-    def settled():
-        return all(state["waiting"][t] or state["done"][t] for t in range(nthreads))
+    def parked(t):
+        return st["waiting"][t] or st["done"][t] or st["blocked"][t]
+
+    def settle(limit):
+        """wait until every thread is parked, finished or known to be blocked; False on timeout"""
+        end = time.monotonic() + limit
+        while not all(parked(t) for t in range(nthreads)):
+            left = end - time.monotonic()
+            if left <= 0:
+                return False
+            cond.wait(min(left, 0.05))
+        return True
+
+    def give_turn(tid):
+        """let thread tid run one line; if it does not come back within [grace] it is blocked"""
+        st["turn"] = tid
+        cond.notify_all()
+        end = time.monotonic() + grace
+        # first: the turn must be taken (the thread is parked in sync(), so this is immediate)
+        while st["turn"] is not None and not st["done"][tid]:
+            if not cond.wait(0.05) and time.monotonic() > end + timeout:
+                raise Deadlock("turn not taken")
+        # then: it runs to its next stop, finishes, or blocks
+        while not (st["waiting"][tid] or st["done"][tid]):
+            left = end - time.monotonic()
+            if left <= 0:
+                st["blocked"][tid] = True
+                return
+            cond.wait(min(left, 0.05))
 
     with cond:
-        for tid in list(schedule) + [None]:
-            while not settled():
-                if not cond.wait(timeout):
-                    raise Deadlock("threads did not settle")
-            if all(state["done"]):
+        if not settle(timeout):
+            raise Deadlock("threads did not start")
+        for tid in schedule:
+            if all(st["done"]):
                 break
-            if tid is None:
-                break
-            if state["done"][tid]:
+            if st["done"][tid] or st["blocked"][tid] or not st["waiting"][tid]:
                 continue
-            state["turn"] = tid
-            cond.notify_all()
-            while state["turn"] is not None and not state["done"][tid]:
-                if not cond.wait(timeout):
-                    raise Deadlock("turn not taken")
-        # schedule exhausted: finish the threads one after the other
-        for tid in range(nthreads):
-            while not state["done"][tid]:
-                while not settled():
-                    if not cond.wait(timeout):
-                        raise Deadlock("threads did not settle (drain)")
-                if state["done"][tid]:
-                    break
-                state["turn"] = tid
-                cond.notify_all()
-                while state["turn"] is not None and not state["done"][tid]:
-                    if not cond.wait(timeout):
-                        raise Deadlock("turn not taken (drain)")
+            give_turn(tid)
+    if hook is not None:
+        hook_result[0] = hook()
+    with cond:
+        # drain: run whoever is runnable, in thread order, until all are done or the rest is blocked for good
+        idle_since = None
+        while not all(st["done"]):
+            runnable = [t for t in range(nthreads) if st["waiting"][t] and not st["done"][t]]
+            if runnable:
+                idle_since = None
+                give_turn(runnable[0])
+                continue
+            # nobody is at a stop: the others are blocked (or still running towards a stop)
+            if idle_since is None:
+                idle_since = time.monotonic()
+            if time.monotonic() - idle_since > hang_after:
+                break
+            cond.wait(0.05)
+        for t in range(nthreads):
+            if not st["done"][t]:
+                results[t] = ("hang",)
+        st["free"] = True          # let stragglers run on untraced if they ever get unblocked
+        cond.notify_all()
     for t in threads:
-        t.join(timeout)
+        if results[threads.index(t)] != ("hang",):
+            t.join(timeout)
+    if hook is not None:
+        return results, hook_result[0]
     return results
